@@ -54,6 +54,31 @@ class Run:
                     self.assumptions.append("%s depends on: %s" % (n, " ".join(a.split())))
             if ob.get("unprinted"):
                 self.broken_obligations.append(dict(what="theorems without Print Assumptions", names=ob["unprinted"]))
+        # second tie: the Gallina translation of the Go source, regenerated now, and the theorems about it
+        for tie in vc.TIES_FOR.get(self.pid, []):
+            r = vc.translation_tie(tie)
+            self.cov.setdefault("translation_ties", []).append(dict(
+                name=tie, ok=r["ok"], regenerated_this_run=r["regenerated"], functions_translated=r["functions"],
+                not_translated=r["skipped"], files_rechecked=[vc.TIES[tie]["gen"]] + vc.TIES[tie]["chain"]))
+            if not r["ok"]:
+                self.broken_obligations.append(dict(
+                    what="translation tie '%s': the Gallina translation of /repo/%s no longer satisfies the theorems "
+                         "proved about it (%s%s)" % (tie, vc.TIES[tie]["dir"], r["stage"], " " + r["file"] if r["file"] else ""),
+                    output=r["output"]))
+        if self.pid in vc.CODE_PROPS and not any(b["what"].startswith("translation tie") for b in self.broken_obligations):
+            ob2 = vc.coq_code_obligations(self.pid)
+            self.cov["obligations"] += ob2["obligations"]
+            self.cov["discharged"] += ob2["discharged"] if ob2["ok"] else 0
+            self.cov["checker_cmd"] += " ; veriftr (Go -> Gallina) on /repo + coqc %s  [re-run on every check]" % ob2["file"]
+            self.cov["theorems"] += [dict(name=n, print_assumptions=a) for n, a in ob2["theorems"]]
+            if not ob2["ok"]:
+                self.broken_obligations.append(dict(what="%s does not check" % ob2["file"], output=ob2["output"][-3000:]))
+            else:
+                for n, a in ob2["theorems"]:
+                    if not a.startswith("Closed under the global context"):
+                        self.assumptions.append("%s depends on: %s" % (n, " ".join(a.split())))
+                if ob2.get("unprinted"):
+                    self.broken_obligations.append(dict(what="theorems without Print Assumptions", names=ob2["unprinted"]))
         if self.tier == "thorough" and ob["ok"]:
             okc, summary = vc.coqchk_property(self.pid)
             self.cov["coqchk"] = summary
